@@ -45,6 +45,26 @@ def quantities(desc, omega, S):
     return p.total_propagator, B, F, (inf, scale)
 
 
+def generic_omegas(desc):
+    """a few frequencies away from every level splitting of every segment (and from zero) by at
+    least a tenth of the inverse total duration"""
+    H = gens.seg_hamiltonians(desc)
+    T = float(np.sum(desc['dt'])) or 1.0
+    gaps = [0.0]
+    for h in H:
+        ev = np.linalg.eigvalsh(h)
+        gaps += list(np.abs(np.subtract.outer(ev, ev)).ravel())
+    gaps = np.array(gaps)
+    out = []
+    x = 0.37/T
+    while len(out) < 4 and x < 1e6/T:
+        if np.min(np.abs(np.abs(x) - gaps)) > 0.1/T:
+            out.append(x)
+            out.append(-x)
+        x *= 2.3
+    return np.array(sorted(out))
+
+
 def cmp(ctx, check, case, what, a, b, tol=1e-6, features=None):
     if isinstance(b, tuple):
         # (infidelity, scale of the trapezoid)
@@ -85,6 +105,10 @@ def check_resegment(ctx, case):
         cmp(ctx, 'resegmentation', case, f'{name}: control matrix', B2, B)
         cmp(ctx, 'resegmentation', case, f'{name}: filter function', F2, F)
         cmp(ctx, 'resegmentation', case, f'{name}: infidelity', inf2, inf)
+        wg = generic_omegas(desc)
+        cmp(ctx, 'resegmentation', case, f'{name}: second-order filter function',
+            gens.build(dd).get_filter_function(wg, order=2),
+            gens.build(desc).get_filter_function(wg, order=2))
     # operator order
     pc, pn = rng.permutation(len(desc['c_opers'])), rng.permutation(len(desc['n_opers']))
     d4 = dict(desc)
@@ -114,6 +138,13 @@ def check_time_unit(ctx, case):
     F2 = q.get_filter_function(omega/lam)
     cmp(ctx, 'time_unit', case, f'control matrix (lambda={lam:g})', B2/lam, B, 1e-6, {'lam': lam})
     cmp(ctx, 'time_unit', case, f'filter function (lambda={lam:g})', F2/lam**2, F, 1e-6, {'lam': lam})
+    # the second-order filter function scales with lambda^2 as well (generic frequencies: the
+    # neighbourhoods of the resonances are the business of C10 and of its open finding F9)
+    wg = generic_omegas(desc)
+    S2 = gens.build(desc).get_filter_function(wg, order=2)
+    S2q = gens.build(d2).get_filter_function(wg/lam, order=2)
+    cmp(ctx, 'time_unit', case, f'second-order filter function (lambda={lam:g})', S2q/lam**2, S2, 1e-6,
+        {'lam': lam})
     ctx.count(('unit', lam, tuple(desc['features']), omega.tobytes()), nontrivial=True)
 
 
